@@ -30,12 +30,41 @@ def find_extraction(s, fn: FuncInfo):
     return found
 
 
-def find_offset_form(s, fn: FuncInfo):
+def reassembly_function(prog: Program, fn: FuncInfo):
+    """(function, summary) that holds the extraction loop of a data_received callback: the callback itself, or - when it only appends the
+    segment and hands over to one parameterless method the rules do not know (`self._process_buffer()`) - that method, summarised from the
+    attribute state the callback leaves."""
+    from .helpers import unknown_callee
+    from .terms import replace
+    s = summarize(prog, fn)
+    if any(isinstance(n, (ast.While, ast.For)) for n in ast.walk(fn.node)) or not fn.params:
+        return fn, s
+    cands = []
+    for st_ in fn.node.body:
+        c = st_.value if isinstance(st_, ast.Expr) else None
+        if isinstance(c, ast.Call) and isinstance(c.func, ast.Attribute) and isinstance(c.func.value, ast.Name) and c.func.value.id == fn.params[0] \
+                and not c.args and not c.keywords:
+            t = unknown_callee(prog, fn, c)
+            if t is not None and len(t.params) == 1 and any(isinstance(n, ast.While) for n in ast.walk(t.node)):
+                cands.append((st_, t))
+    if len(cands) != 1 or cands[0][0] not in s.ta.env_at:
+        return fn, s
+    st_, h = cands[0]
+    sp, hp = fn.params[0], h.params[0]
+    ren = {("param", sp): ("param", hp)} if sp != hp else {}
+    seed = {hp: ("param", hp)}
+    for k, v in s.ta.env_at[st_].env.items():
+        if k.startswith(sp + ".") and k.count(".") == 1:
+            seed[hp + k[len(sp):]] = replace(v, ren) if ren else v
+    return h, summarize(prog, h, seed)
+
+
+def find_offset_form(s, fn: FuncInfo, data_p=None):
     """(loop, counter name, buffer key, B) for a callback that leaves the buffer B = buffer + data alone inside its loop and counts the bytes
     consumed in a local that is 0 at loop entry (the buffer is trimmed once on the way out); None when fn does not have this shape."""
-    if len(fn.params) < 2:
+    if len(fn.params) < 2 and data_p is None:
         return None
-    self_p, data_p = fn.params[0], fn.params[1]
+    self_p, data_p = fn.params[0], (data_p or fn.params[1])
     found = None
     for l in [l for l in find_loops(fn.node) if l in s.loops and isinstance(l, ast.While)]:
         info = s.loops[l]
@@ -82,11 +111,12 @@ def lower_bound(t, facts) -> Optional[int]:
 def put_length_bound(prog: Program, fn: FuncInfo) -> Optional[int]:
     """A lower bound for len(item) over every put_nowait(item) the callback (or a helper it calls) performs, or None."""
     try:
-        s = summarize(prog, fn)
+        data_p = fn.params[1] if len(fn.params) > 1 else None
+        fn, s = reassembly_function(prog, fn)
         loop, buf_key = find_extraction(s, fn)
         plain = False
         if loop is None:
-            off_form = find_offset_form(s, fn)
+            off_form = find_offset_form(s, fn, data_p)
             if off_form is None:
                 return None
             # offsets into the untouched buffer B, counted from B.find(marker, consumed): the view is B[that offset:]
